@@ -81,9 +81,11 @@ func (e *Engine) verifyWith(fn *ssa.Function, safe bool, prop string, maxDepth i
 		for _, sc := range c.Sites {
 			collect(sc.Expr)
 		}
-		for _, cls := range c.LoopInv {
-			for _, cl := range cls {
-				collect(cl.Expr)
+		for _, group := range []map[int][]*Clause{c.LoopInv, c.LoopBack, c.LoopEntry} {
+			for _, cls := range group {
+				for _, cl := range cls {
+					collect(cl.Expr)
+				}
 			}
 		}
 		// spec functions may hide calls(...): collect from all spec function bodies too
